@@ -403,9 +403,9 @@ func c16Jobs(tier string) []*SeqJob {
 	hetero.Run = func(ctx *SeqCtx) {
 		for _, k := range kinds {
 			for _, nc := range []int{-1, 1} {
+				ctx.OpsPrefix = []string{k, fmt.Sprint(nc)}
 				bfs(ctx, halpha, hdepth, hexec(k, nc))
 				if ctx.viol != nil {
-					ctx.viol.Ops = append([]string{k, fmt.Sprint(nc)}, ctx.viol.Ops...)
 					return
 				}
 			}
@@ -473,9 +473,9 @@ func c16Jobs(tier string) []*SeqJob {
 	reuse := &SeqJob{Property: "C16", Name: "reused-protocol-sequences"}
 	reuse.Run = func(ctx *SeqCtx) {
 		for _, k := range kinds {
+			ctx.OpsPrefix = []string{k}
 			bfs(ctx, ralpha, depth, rexec(k))
 			if ctx.viol != nil {
-				ctx.viol.Ops = append([]string{k}, ctx.viol.Ops...)
 				return
 			}
 		}
